@@ -324,7 +324,7 @@ class FakeSSLModule:
 class ServerPeer:
     """Scripted server.
 
-    hs: 'ok' | 'status:404' | 'garbage' | 'eof' | 'silent'
+    hs: 'ok' | 'status:404' | 'short-body:403[:silent]' | 'garbage' | 'eof' | 'silent'
     script: list of (offset_after_open, kind, bytes) kind in data|eof|rst ; first item may have glue=True (same segment as the 101)
     on_ping: None (never answer) | ('all', latency) | ('first', j, latency) | ('pattern', [latencies or None...])
     on_close: 'reply' | 'eof' | 'silent' | 'reply+eof' ; close_latency
@@ -398,6 +398,12 @@ class ServerPeer:
             code = int(self.hs.split(":")[1])
             self.sock.deliver(t, "data", ("HTTP/1.1 %d Nope\r\nContent-Length: 0\r\n\r\n" % code).encode())
             self.sock.deliver(t, "eof")
+        elif self.hs.startswith("short-body:"):
+            # a rejection whose announced Content-Length exceeds the body actually delivered before the server closes (or goes silent)
+            code = int(self.hs.split(":")[1])
+            self.sock.deliver(t, "data", ("HTTP/1.1 %d Nope\r\nContent-Length: 64\r\n\r\nForbidden" % code).encode())
+            if not self.hs.endswith(":silent"):
+                self.sock.deliver(t + 0.5, "eof")
         elif self.hs == "garbage":
             self.sock.deliver(t, "data", b"\x00\xff garbage \r\n\r\n")
             self.sock.deliver(t, "eof")
